@@ -79,6 +79,10 @@ def raised(d: dict) -> bool:
 
 def replay_special(rc: dict, prefix: str, judge: Optional[Callable[[dict], bool]] = None) -> Optional[int]:
     """Replay of the two special case shapes; None when rc is an ordinary case."""
+    if rc.get("odd_equality"):
+        v = odd_equality_violation(prefix)
+        print("property violated: " + v["what"] if v else "property holds for values with unusual equality")
+        return 1 if v else 0
     if rc.get("history"):
         ops = [(m, from_json(x)) for m, x in rc["ops"]]
         v = history_violation(prefix, from_json(rc["v"]), from_json(rc.get("lazy", [])), ops, judge=judge)
@@ -89,4 +93,75 @@ def replay_special(rc: dict, prefix: str, judge: Optional[Callable[[dict], bool]
                                  [from_json(x) for x in rc["inputs"]], 200000)
         print("property violated under this schedule: " + v["what"] if v else f"property holds under all {n} schedules")
         return 1 if v else 0
+    return None
+
+
+# ------------------------------------------------------------------ values with unusual (but legal) equality
+class _AlwaysEqual:
+    """equal to everything (like unittest.mock.ANY)"""
+    def __eq__(self, other):
+        return True
+    def __ne__(self, other):
+        return False
+    def __hash__(self):
+        return 7
+    def __repr__(self):
+        return "<always-equal>"
+
+
+class _EqRaises:
+    """comparing it raises (array-likes with ambiguous truth values do)"""
+    def __eq__(self, other):
+        raise ValueError("the truth value of this comparison is ambiguous")
+    __hash__ = None  # type: ignore
+    def __repr__(self):
+        return "<eq-raises>"
+
+
+class _EqNotBool:
+    """== answers with a non-empty list (element-wise comparison)"""
+    def __eq__(self, other):
+        return [False, True]
+    __hash__ = None  # type: ignore
+    def __repr__(self):
+        return "<eq-gives-a-list>"
+
+
+def odd_equality_violation(prefix: str) -> Optional[dict]:
+    """None, `nothing` and Just are recognised by what they *are*, not by what a value claims to equal: a value whose
+    __eq__ says yes to everything (or raises, or answers with a list) is neither None nor a Maybe nor an int - the
+    None / Optional / Maybe validators reject it with an Invalid about that very object, both ways of calling them
+    agree, and nothing raises."""
+    from koda_validate import (DictValidatorAny, IntValidator, Invalid, ListValidator, NoneValidator,
+                               OptionalValidator, UnionValidator)
+    from koda_validate.maybe import MaybeValidator
+    mk = [("NoneValidator()", lambda: NoneValidator()),
+          ("OptionalValidator(IntValidator())", lambda: OptionalValidator(IntValidator())),
+          ("MaybeValidator(IntValidator())", lambda: MaybeValidator(IntValidator())),
+          ("UnionValidator.untyped(NoneValidator(), IntValidator())", lambda: UnionValidator.untyped(NoneValidator(), IntValidator())),
+          ("OptionalValidator(MaybeValidator(IntValidator()))", lambda: OptionalValidator(MaybeValidator(IntValidator())))]
+    for name, make in mk:
+        for val in (_AlwaysEqual(), _EqRaises(), _EqNotBool()):
+            for shape in ("bare", "list", "dict"):
+                v0 = make()
+                v = v0 if shape == "bare" else ListValidator(v0) if shape == "list" else DictValidatorAny({"k": v0})
+                x = val if shape == "bare" else [val] if shape == "list" else {"k": val}
+                outs = []
+                for mode in ("sync", "async"):
+                    try:
+                        r = v(x) if mode == "sync" else drive(v.validate_async(x))
+                    except Exception as e:  # noqa
+                        return {"kind": "oracle", "signature": f"{prefix}:odd-equality",
+                                "what": f"{name} ({shape}, {mode}) given {val!r} raised {e!r}", "replay_case": {"odd_equality": True}}
+                    outs.append(r)
+                    if type(r) is not Invalid:
+                        return {"kind": "oracle", "signature": f"{prefix}:odd-equality",
+                                "what": f"{name} ({shape}, {mode}) given {val!r} - which is not None, not a Maybe and not an int - returned {r!r}",
+                                "replay_case": {"odd_equality": True}}
+                    node = r if shape == "bare" else (list(r.err_type.indexes.values()) + [None])[0] if shape == "list" and hasattr(r.err_type, "indexes") \
+                        else (list(r.err_type.keys.values()) + [None])[0] if shape == "dict" and hasattr(r.err_type, "keys") else None
+                    if node is None or node.value is not val or node.validator is not v0:
+                        return {"kind": "oracle", "signature": f"{prefix}:odd-equality",
+                                "what": f"{name} ({shape}, {mode}) given {val!r}: the error is not about that object and this validator: {r!r}",
+                                "replay_case": {"odd_equality": True}}
     return None
